@@ -45,6 +45,15 @@ package pipeline
 // cri / postgres paths) adds fields to the root it is given, which must therefore
 // have been reset to an empty object first (ghost g_clean).
 
+// Pipeline.Error only logs (or exits in strict mode): no effect on pipeline memory - In
+// keeps what it knows across its error reports, in particular that the antispam
+// exceptions are prepared (IsSpam needs it for RuleSet.Match; fd prepares them when the
+// pipeline is set up; Mode <= 2 = one of matchrule's three modes).
+
+//@ func (*Pipeline).Error
+//@   option allow-exit yes
+//@   pure
+
 //@ func (*Pipeline).In
 //@   ghost g_so int = 0
 //@   ghost g_spam bool = false
@@ -52,6 +61,7 @@ package pipeline
 //@   ghost held int = 0
 //@   requires p.settings.MaxEventSize >= 0
 //@   requires 2 <= p.decoderType && p.decoderType <= 10
+//@   requires forall x, k :: 0 <= x && x < len(p.antispamer.exceptions) && 0 <= k && k < len(p.antispamer.exceptions[x].Rules) ==> p.antispamer.exceptions[x].Rules[k].prepared && p.antispamer.exceptions[x].Rules[k].maxValueSize >= 0 && 0 <= p.antispamer.exceptions[x].Rules[k].Mode && p.antispamer.exceptions[x].Rules[k].Mode <= 2
 //@   ensures held == 0
 //@   ghost g_undec bool = false
 //@   ensures result == 0 ==> !ok || g_undec || (g_so > 0 && offsets.current < g_so) || g_spam || g_pass0
